@@ -33,9 +33,10 @@ CONSTANTS Mods,        \* module names
           UnstashNs,   \* values offered to m_mod_unstash
           HandlerIds,  \* handlers offered to m_mod_become
           Kinds,       \* source kinds offered to register / deregister: subset of {"fd", "tmr", "sgn", "path", "pid", "task", "thr"}
+                       \* (events of "fd", "tmr", "sgn", "path", "pid", "task" sources are delivered; "thr" is covered in the registry only)
           Keys,        \* identifying values per kind (small integers; the driver maps them to descriptors, periods, signals, ...)
           SrcOpts,     \* option records [os |-> oneshot, ac |-> autoclose] offered at registration
-          EvKinds,     \* kinds of poll events that can occur in this configuration: subset of {"ps", "fd", "tmr", "tb", "bt", "tick"}
+          EvKinds,     \* kinds of poll events that can occur in this configuration: subset of {"ps", "fd", "tmr", "sgn", "path", "pid", "task", "tb", "bt", "tick"}
           MaxBatch,    \* at most this many events in one poll batch
           Errnos,      \* errno values a callback may leave behind (SetErrno)
           TbVals,      \* <<rate, burst>> pairs offered to m_mod_set_tokenbucket (rate 0 = remove the limit)
@@ -95,6 +96,11 @@ Init0 == [ctx |-> Ctx0,
           ufd |-> [f \in Keys |-> "open"],             \* user descriptors: "open" | "closed" (closed by the library: auto-close)
           held |-> <<>>,                               \* events retained by the program (each keeps its message copy / source alive)
           idue |-> {},                                 \* internal timers that expired: <<m, "tb">>, <<m, "bt">>, <<"", "tick">>
+          sigp |-> {},                                 \* signals (keys) raised and not consumed yet: pending for the whole process
+          dead |-> {},                                 \* watched processes (keys) that have exited (for good)
+          xdue |-> {},                                 \* <<m, "path", key>> a change of the watched path is pending in m's watch descriptor;
+                                                       \* <<m, "task", key>> the task has finished and notified, its event was not consumed yet
+          trun |-> {},                                 \* <<m, key>>: tasks whose thread is executing the user's function
           errno |-> 0]
 \* canned set-ups (the driver executes the same public calls before every program and checks it arrived here):
 \*  "loop2" / "loop3": context registered, all modules registered, first dispatch done (loop started, modules RUNNING)
@@ -113,7 +119,7 @@ Msg(p, from, topic, sys) == [p |-> p, from |-> from, topic |-> topic, sys |-> sy
 HasSrc(s, m, k, key) == \E x \in s.mod[m].src : x.k = k /\ x.key = key
 SrcOf(s, m, k, key) == CHOOSE x \in s.mod[m].src : x.k = k /\ x.key = key
 \* the event of a descriptor / timer source: no payload, the topic field carries "F<key>" / "T<key>", userdata = the key
-SrcEvt(k, key) == [p |-> 0, from |-> IF k = "fd" THEN "fd" ELSE "tmr", topic |-> "", sys |-> FALSE, pr |-> "N", ud |-> key, os |-> FALSE]
+SrcEvt(k, key) == [p |-> 0, from |-> k, topic |-> "", sys |-> FALSE, pr |-> "N", ud |-> key, os |-> FALSE]
 
 \* one copy of payload p disappears (delivered-and-released, discarded, or never written)
 Release1(pay, p) ==
@@ -186,9 +192,17 @@ Holds(s, f) == (\E j \in 1..Len(s.held) : s.held[j].from = "fd" /\ s.held[j].ud 
 Settle(s) == LET u == [f \in Keys |-> IF s.ufd[f] = "closing" /\ ~Holds(s, f) THEN "closed" ELSE s.ufd[f]]
              IN [s EXCEPT !.ufd = u, !.rdy = {f \in s.rdy : u[f] # "closed"}, !.hup = {f \in s.hup : u[f] # "closed"}]
 DropDue(due, m) == {d \in due : d[1] # m}
+\* tasks.  A task source registered on a RUNNING module (or present when its module is started / resumed) gets a thread that runs
+\* the user's function (trun); when the function returns the thread notifies the loop (xdue) and the event is delivered once
+\* (the source is one-shot).  The thread uses its source until it has notified: before a started task's source leaves the poll
+\* (module paused, stopped, deregistered) the library waits for the threads of the context (all of them: it tears its pool down).
+TaskKeys(s, m) == {x.key : x \in {y \in s.mod[m].src : y.k = "task"}}
+Started(s, m) == (\E t \in s.trun : t[1] = m) \/ (\E d \in s.xdue : d[1] = m /\ d[2] = "task")
+JoinAll(s) == [s EXCEPT !.trun = {}, !.xdue = @ \cup {<<t[1], "task", t[2]>> : t \in s.trun}]
+JoinFor(s, m) == IF Started(s, m) THEN JoinAll(s) ELSE s
 ResetMod(s, m) == [s EXCEPT !.pay = ReleaseAll(ReleaseAll(s.pay, s.mod[m].bq), s.mod[m].stash),
                              !.ufd = CloseAc(s.ufd, s.mod[m].src),
-                             !.mod[m].src = {}, !.due = DropDue(s.due, m),
+                             !.mod[m].src = {}, !.due = DropDue(s.due, m), !.xdue = DropDue(s.xdue, m),
                              !.mod[m].tb = [rate |-> 0, burst |-> 0, tok |-> 0, tmr |-> FALSE], !.mod[m].bt = FALSE,
                              !.mod[m].subs = {}, !.mod[m].bq = <<>>, !.mod[m].blen = 0, !.mod[m].stash = <<>>, !.mod[m].hs = <<>>]
 
@@ -208,6 +222,7 @@ Step(s) ==
             IF f.a /\ Limited(r, m) /\ r.mod[m].tb.tok = 0 THEN Ret(r, EAGAIN) ELSE
             LET r1 == IF f.a THEN Spend(r, m) ELSE r
                 s1 == [r1 EXCEPT !.mod[m].st = "running", !.run = r.run + 1,
+                                 !.trun = @ \cup {<<m, key>> : key \in TaskKeys(r, m)},    \* its sources are armed; task sources get their thread
                                  !.mod[m].pipe = IF f.a THEN <<>> ELSE r.mod[m].pipe]
             IN IF f.a /\ HasHook(m, "start")
                  THEN EnterCb(Push(s1, Fr("start2", m, TRUE, 0)), m, "start", <<>>)
@@ -219,10 +234,12 @@ Step(s) ==
       [] f.k = "retval" -> Ret(r, f.a)
       [] f.k = "stop" ->         \* stop(mod, stopping = f.a)
             LET discard == IF f.a THEN r.mod[m].pipe ELSE <<>>                     \* unread messages are destroyed on stop
-                s1 == [r EXCEPT !.pay = ReleaseAll(r.pay, discard),
+                r0 == JoinFor(r, m)                                                 \* started tasks are waited for before their sources leave the poll
+                s1 == [r0 EXCEPT !.pay = ReleaseAll(r.pay, discard),
                                 !.mod[m].pipe = IF f.a THEN <<>> ELSE r.mod[m].pipe,
                                 !.run = IF r.mod[m].st = "running" THEN r.run - 1 ELSE r.run,
                                 !.due = DropDue(r.due, m),                             \* its timers are disarmed (re-armed from scratch on resume)
+                                !.xdue = DropDue(r0.xdue, m),                          \* its watch / notification descriptors are closed: what was pending there is lost
                                 !.idue = {d \in r.idue : d[1] # m},
                                 !.mod[m].st = IF f.a THEN "stopped" ELSE "paused"]
             IN IF ~f.a THEN Ret(Sys(s1, "MOD_STOPPED", m), 0)
@@ -295,8 +312,12 @@ Step(s) ==
                     ELSE LET src == SrcOf(r, x, e[2], e[3])
                              \* a one-shot source fires once and is then no longer registered (an auto-close descriptor is closed
                              \* when its event is released; modelled at once); an expired timer is consumed
+                             \* a signal is consumed (for the whole process), a path change / task notification is read; an exited
+                             \* process stays exited: its source reports it at every poll unless it was one-shot
                              s1 == [rest EXCEPT !.mod[x].src = IF src.os THEN @ \ {src} ELSE @,
-                                                !.due = IF e[2] = "tmr" THEN @ \ {<<x, e[3]>>} ELSE @]
+                                                !.due = IF e[2] = "tmr" THEN @ \ {<<x, e[3]>>} ELSE @,
+                                                !.sigp = IF e[2] = "sgn" THEN @ \ {e[3]} ELSE @,
+                                                !.xdue = @ \ {<<x, e[2], e[3]>>}]
                              ev == [SrcEvt(e[2], e[3]) EXCEPT !.pr = IF e[2] = "fd" THEN "H" ELSE "N"]
                          IN PushEvt(s1, x, ev)
       [] f.k = "evt2" ->         \* after the handler: the events of that invocation are released
@@ -325,8 +346,10 @@ Step(s) ==
       [] f.k = "pillstop" ->
             IF r.mod[m].st = "running" THEN Push(r, Fr("stop", m, TRUE, 0)) ELSE r
       [] f.k = "lstop2" ->       \* quit code; a non-persistent context without modules is released now
-            LET code == r.ctx.qcode IN
-            IF Registered(r) = {} /\ ~CtxPersist THEN Ret(ReleaseCtx(r), code) ELSE Ret(r, code)
+            \* the task pool is torn down: running tasks are waited for (their notifications stay pending for the next loop run)
+            LET code == r.ctx.qcode
+                r1 == JoinAll(r) IN
+            IF Registered(r1) = {} /\ ~CtxPersist THEN Ret(ReleaseCtx(r1), code) ELSE Ret(r1, code)
       [] f.k = "cdereg" ->       \* m_ctx_deregister(): every module is deregistered (not from the user), then the context is released
             IF f.b = <<>> THEN (IF r.ctx.st = "none" THEN Ret(r, 0) ELSE Ret(ReleaseCtx(r), 0))
             ELSE LET x == Head(f.b)
@@ -382,11 +405,14 @@ CtxQuit(c) == /\ Can("CtxQuit")
 Ready(s) == {<<m, "ps", 0>> : m \in {x \in Mods : s.mod[x].st = "running" /\ s.mod[x].pipe # <<>>}}
             \cup {e \in Mods \X {"fd"} \X Keys : s.mod[e[1]].st = "running" /\ HasSrc(s, e[1], "fd", e[3]) /\ e[3] \in s.rdy}
             \cup {e \in Mods \X {"tmr"} \X Keys : s.mod[e[1]].st = "running" /\ HasSrc(s, e[1], "tmr", e[3]) /\ <<e[1], e[3]>> \in s.due}
+            \cup {e \in Mods \X {"sgn"} \X Keys : s.mod[e[1]].st = "running" /\ HasSrc(s, e[1], "sgn", e[3]) /\ e[3] \in s.sigp}
+            \cup {e \in Mods \X {"pid"} \X Keys : s.mod[e[1]].st = "running" /\ HasSrc(s, e[1], "pid", e[3]) /\ e[3] \in s.dead}
+            \cup {e \in Mods \X {"path", "task"} \X Keys : s.mod[e[1]].st = "running" /\ HasSrc(s, e[1], e[2], e[3]) /\ e \in s.xdue}
             \cup {<<d[1], d[2], 0>> : d \in s.idue}                   \* expired internal timers: refill, batch timeout, tick
 IsPerm(b, T) == Len(b) = Cardinality(T) /\ {b[i] : i \in 1..Len(b)} = T
 Batches(s) == IF Ready(s) = {} THEN {<<>>}
               ELSE UNION {{b \in [1..Cardinality(T) -> T] : IsPerm(b, T)} : T \in {U \in (SUBSET Ready(s)) \ {{}} : Cardinality(U) <= MaxBatch}}
-AllEvents == {e \in (Mods \X {"ps", "tb", "bt"} \X {0}) \cup (Mods \X {"fd", "tmr"} \X Keys) \cup {<<"", "tick", 0>>} : e[2] \in EvKinds}
+AllEvents == {e \in (Mods \X {"ps", "tb", "bt"} \X {0}) \cup (Mods \X {"fd", "tmr", "sgn", "path", "pid", "task"} \X Keys) \cup {<<"", "tick", 0>>} : e[2] \in EvKinds}
 AllBatches == UNION {{b \in [1..Cardinality(T) -> T] : IsPerm(b, T)} : T \in {U \in SUBSET AllEvents : Cardinality(U) <= MaxBatch}}
 \* m_ctx_dispatch(): start / deliver one poll batch b / stop
 Dispatch(b) == /\ Can("Dispatch") /\ AtTop
@@ -516,9 +542,12 @@ SrcRegister(m, k, key, o) ==
     /\ (k = "fd" => S.ufd[key] = "open") /\ (k # "fd" => ~o.ac)
     /\ (k = "fd" => \A x \in Mods \ {m} : ~HasSrc(S, x, "fd", key))       \* (precondition: one owner per user descriptor)
     /\ (k = "fd" => ~Holds(S, key))                                       \* (modelling bound: no event of an earlier registration of it is still referenced)
+    /\ (k = "sgn" => \A x \in Mods \ {m} : ~HasSrc(S, x, "sgn", key))      \* (precondition: one owner per signal - the kernel hands a signal to one reader)
     /\ IF ModRefused(m) THEN Refuse(NEG)
        ELSE IF HasSrc(S, m, k, key) THEN Rated(m, Ret(S, EEXIST))                 \* (the token is taken before the lookup)
-       ELSE Rated(m, [S EXCEPT !.mod[m].src = @ \cup {[k |-> k, key |-> key, os |-> (o.os \/ k \in {"task", "thr"}), ac |-> o.ac]}, !.ret = 0])
+       ELSE Rated(m, [S EXCEPT !.mod[m].src = @ \cup {[k |-> k, key |-> key, os |-> (o.os \/ k \in {"task", "thr"}), ac |-> o.ac]},
+                               \* a task registered on a RUNNING module is started at once
+                               !.trun = IF k = "task" /\ S.mod[m].st = "running" THEN @ \cup {<<m, key>>} ELSE @, !.ret = 0])
 
 SrcDeregister(m, k, key) ==
     /\ Can("SrcDeregister") /\ Handle(m) /\ m \in Targets /\ k \in Kinds /\ key \in Keys
@@ -526,7 +555,7 @@ SrcDeregister(m, k, key) ==
        ELSE IF ~HasSrc(S, m, k, key) THEN Rated(m, Ret(S, NEG))
        ELSE LET src == SrcOf(S, m, k, key) IN
             Rated(m, [S EXCEPT !.mod[m].src = @ \ {src}, !.ufd = CloseAc(S.ufd, {src}),
-                         !.due = IF k = "tmr" THEN @ \ {<<m, key>>} ELSE @, !.ret = 0])
+                         !.due = IF k = "tmr" THEN @ \ {<<m, key>>} ELSE @, !.xdue = @ \ {<<m, k, key>>}, !.ret = 0])
 
 \* environment: a user descriptor becomes readable / is drained / a closed one is replaced by a fresh one; a timer expires
 FdReady(f) == /\ Can("FdReady") /\ AtTop /\ f \in Keys /\ S.ufd[f] = "open" /\ f \notin S.rdy
@@ -539,6 +568,18 @@ FdReopen(f) == /\ Can("FdReopen") /\ AtTop /\ f \in Keys /\ S.ufd[f] = "closed"
                /\ S' = [S EXCEPT !.ufd[f] = "open", !.hup = @ \ {f}]
 TmrFire(m, key) == /\ Can("TmrFire") /\ AtTop /\ key \in Keys /\ S.mod[m].st = "running" /\ HasSrc(S, m, "tmr", key) /\ <<m, key>> \notin S.due
                    /\ S' = [S EXCEPT !.due = @ \cup {<<m, key>>}]
+\* environment: a signal is raised (it stays pending for the process until some signal source consumes it); something changes
+\* in a watched path (every watch that is armed, i.e. of a RUNNING module, sees it); a watched process exits; a task's function returns
+SgnRaise(key) == /\ Can("SgnRaise") /\ AtTop /\ key \in Keys /\ key \notin S.sigp
+                 /\ S' = [S EXCEPT !.sigp = @ \cup {key}]
+PathTouch(key) == /\ Can("PathTouch") /\ AtTop /\ key \in Keys
+                  /\ LET w == {m \in Mods : S.mod[m].st = "running" /\ HasSrc(S, m, "path", key)} IN
+                     /\ w # {} /\ \A m \in w : <<m, "path", key>> \notin S.xdue
+                     /\ S' = [S EXCEPT !.xdue = @ \cup {<<m, "path", key>> : m \in w}]
+PidExit(key) == /\ Can("PidExit") /\ AtTop /\ key \in Keys /\ key \notin S.dead
+                /\ S' = [S EXCEPT !.dead = @ \cup {key}]
+TaskFinish(m, key) == /\ Can("TaskFinish") /\ AtTop /\ <<m, key>> \in S.trun
+                      /\ S' = [S EXCEPT !.trun = @ \ {<<m, key>>}, !.xdue = @ \cup {<<m, "task", key>>}]
 \* m_mod_set_tokenbucket(): the old refill timer goes (a rate-limited call under the old bucket), the new bucket starts full,
 \* its refill timer is registered (a rate-limited call under the new bucket: with burst 0 it fails with EAGAIN)
 SetTokenBucket(m, v) ==
@@ -620,6 +661,7 @@ Next == \/ CtxRegister \/ CtxDeregister \/ CtxFinalize
                            \/ Unbecome(m)
         \/ \E m \in Mods, k \in Kinds, key \in Keys : SrcDeregister(m, k, key) \/ \E o \in SrcOpts : SrcRegister(m, k, key, o)
         \/ \E f \in Keys : FdReady(f) \/ FdDrain(f) \/ FdReopen(f) \/ FdHup(f) \/ \E m \in Mods : TmrFire(m, f)
+        \/ \E f \in Keys : SgnRaise(f) \/ PathTouch(f) \/ PidExit(f) \/ \E m \in Mods : TaskFinish(m, f)
         \/ \E v \in Errnos : SetErrno(v)
         \/ \E m \in Mods : TbTick(m) \/ BtFire(m) \/ (\E v \in TbVals : SetTokenBucket(m, v)) \/ (\E on \in BOOLEAN : SetBatchTimeout(m, on))
         \/ TickFire \/ \E v \in TickVals : CtxSetTick(v)
@@ -673,6 +715,9 @@ C04_ObjectLifetime == \A m \in Mods : /\ (S.mod[m].st = "none" => (~S.mod[m].reg
                                         /\ (S.mod[m].st = "zombie" => (~S.mod[m].reg /\ S.mod[m].h > 0))
 \* C20: a descriptor is closed by the library only through auto-close; one that is registered is open
 C20_RegisteredOpen == \A m \in Mods : \A x \in S.mod[m].src : x.k = "fd" => S.ufd[x.key] = "open"
+\* C03/C04: a task thread never outlives its source; what is pending in a library-owned descriptor belongs to a polled source
+C04_NoOrphanTask == \A t \in S.trun : S.mod[t[1]].st = "running" /\ HasSrc(S, t[1], "task", t[2])
+C03_PendingHasSource == \A d \in S.xdue : S.mod[d[1]].st = "running" /\ HasSrc(S, d[1], d[2], d[3])
 \* C18: never more tokens than the burst; no limit when the module is not between start and stop unless configured meanwhile
 C18_TokensBounded == \A m \in Mods : Limited(S, m) => (S.mod[m].tb.tok >= 0 /\ S.mod[m].tb.tok <= S.mod[m].tb.burst)
 \* C18: a successful rate-limited call takes exactly one token (two for a start: the call and its mailbox registration);
